@@ -72,6 +72,12 @@ CHECKS = {
         text="PROVED (frame lemmas, all inputs): doctrans opens the file for writing exactly once, as its last statement, with nothing that can raise in repo code after the truncating open and the payload being the concatenation of the CST node values (so an error leaves the file intact); under doctransify_cst the only CST slots ever stored to are cst_idx (the def header) and cst_idx+1, the latter only when it is a docstring node or as an insertion. With C09 this yields: lines that are not definition headers or docstrings are byte-identical. "
              "BOUNDED only: that the re-rendered header and docstring keep the program (AST equality modulo docstrings/annotations/type comments), comments, validity — over generated modules. One known finding (comment inside a multi-line header).",
         note="Assumed: CST node values are str; find_cst_at_ast returns the slot of the definition it was asked for (not proved; covered by the bounded AST comparison)."),
+    "C19": dict(
+        category="other", design_ref="DESIGN.md §5 C19",
+        technique="contract-based verification by dominance / frame / shape rules over the real ast of __main__.main, gen, gen_file and get_functions_and_classes; bounded run of gen and of the CLI for the rest",
+        text="PROVED (rule engine, all inputs): the call gen(**args_dict) in main is dominated by the exists-and-phase-0 guard with nothing in between; gen and gen_file never rebind output_filename, so the path appended to (mode 'a') is the very string the guard tested; get_functions_and_classes adds name_tpl.format(name=name) to __all__ exactly once per input item, in order, and returns one element per item. "
+             "BOUNDED only: the written module compiles, __all__ equals the defined template names, symbols parse back to their source interface, --prepend / --imports-from-file, and the CLI leaves an existing file untouched (plain, ./ and ~ spellings). One known finding (SQLAlchemy kinds: __all__ names undefined symbols).",
+        note="Out of the bounded domain because they crash on the pinned tree: function and pydantic emit kinds through gen, --emit-and-infer-imports (stated in the evidence)."),
 }
 
 NA_REASON = "check not built yet (work in progress; see DESIGN.md for the plan)"
